@@ -341,6 +341,23 @@ def CW(a: int, b: int = 7):
     return y.out
 
 
+@workflow.define(outputs=["o1", "o2"])
+def CWV(a: int, b: int = 7):
+    """as CW with two outputs; for a == 3 the constructor returns one value for the two declared outputs (an invalid construction)"""
+    x = workflow.add(Node(x=a, tag=1), name="x")
+    y = workflow.add(Pair(x=x.out, y=b, tag=2), name="y")
+    if a == 3:
+        return x.out
+    return x.out, y.out
+
+
+@python.define
+def Desc(a: ty.Any, tag: int = 0) -> str:
+    import vf.rec as R
+    R.rec("Desc", repr(a), tag)
+    return repr(a)
+
+
 from pydra.utils.messenger import Messenger  # noqa: E402
 
 
